@@ -50,7 +50,8 @@ Inductive outcome :=
   | EExists          (* "already exists" *)
   | ESource          (* "previous installations were from" — raised AFTER the run dir was made *)
   | EReserved        (* run name is reserved (runN, run<number>, log, ...) *)
-  | ENotInstalled.   (* reinstall: "is not an installed workflow" *)
+  | ENotInstalled    (* reinstall: "is not an installed workflow" *)
+  | EBadLink.        (* clean <wf>/runN with a dangling runN: get_symlink_dirs "Invalid symlink" *)
 
 Definition nums (s : st) : list N := map fst (numbered s).
 Definition names (s : st) : list nat := map fst (named s).
@@ -175,9 +176,15 @@ Definition clean (s : st) (t : target) : st :=
       | None => s
       | Some t =>
           if has_num s t then clean_num s t          (* infer_latest_run resolves the link *)
-          else tidy (set_runN s None)                 (* broken symlink: just removed *)
+          else s    (* dangling: get_symlink_dirs takes runN for the run dir and refuses *)
       end
   | TAll => empty                                     (* the whole workflow dir goes *)
+  end.
+
+Definition clean_outcome (s : st) (t : target) : outcome :=
+  match t, runN s with
+  | TRunN, Some k => if has_num s k then Ok else EBadLink
+  | _, _ => Ok
   end.
 
 Definition step (s : st) (o : op) : st * outcome :=
@@ -186,7 +193,7 @@ Definition step (s : st) (o : op) : st * outcome :=
   | InstallNamed j src c => install_named s j src c
   | InstallFlat src c => install_flat s src c
   | Reinstall t c => reinstall s t c
-  | Clean t => (clean s t, Ok)
+  | Clean t => (clean s t, clean_outcome s t)
   | RmRunN => (set_runN s None, Ok)
   | RmRun k =>
       ({| numbered := remove_key N.eqb k (numbered s); runN := runN s; named := named s;
@@ -221,7 +228,7 @@ Definition listing_of (s : st) : listing :=
 Definition outcome_code (o : outcome) : nat :=
   match o with
   | Ok => 0 | ENamedExist => 1 | ENumberedExist => 2 | ENested => 3 | EExists => 4
-  | ESource => 5 | EReserved => 6 | ENotInstalled => 7
+  | ESource => 5 | EReserved => 6 | ENotInstalled => 7 | EBadLink => 8
   end.
 
 Definition pNn_eqb (a b : N * nat) := N.eqb (fst a) (fst b) && Nat.eqb (snd a) (snd b).
